@@ -1365,6 +1365,25 @@ class C15(Prop):
             res.fail("extract-never-raises", "extract-templates-raises:" + exc_bucket(err),
                      f"extract_from_templates: {type(err).__name__}: {err}; src={src!r}")
 
+        # ---- 1b. several templates in one call: a translator comment that nothing follows in one template is
+        # not attached to a message of the next one
+        if raw:
+            res.evaluations += 1
+            try:
+                stray = env.from_string("intro\n{# Translators: kSTRAYx note #}")
+                multi = extract_from_templates(stray, tmpl, env.from_string("{# Translators: kSTRAYx note #}"), tmpl)
+                for message in multi:
+                    if any("kSTRAYx" in c for c in (message.auto_comments or [])):
+                        res.fail("comments", "comment-misattached:other-template",
+                                 f"extract_from_templates(stray, template, ...): the trailing comment of another template "
+                                 f"is attached to {message.id!r}; src={src!r}")
+                        break
+            except RecursionError:
+                pass
+            except Exception as err:  # noqa: BLE001
+                res.fail("extract-never-raises", "extract-templates-raises:" + exc_bucket(err),
+                         f"extract_from_templates with several templates: {type(err).__name__}: {err}; src={src!r}")
+
         # ---- 2. index the extracted messages by site
         by_site: dict[str, list[tuple[tuple[str, str | None, str, str | None], Any]]] = {}
         ordered: list[tuple[str | None, Any]] = []
